@@ -15,7 +15,10 @@ func seq(fs ...func(*Ctx)) func(*Ctx) {
 // All maps property ids to their rule sets.
 var All = map[string]func(*Ctx){
 	"C01": seq(C01, (*Ctx).c12OTP, (*Ctx).c12Recovery),
-	"C02": seq(C02, (*Ctx).c12Recovery, (*Ctx).c12SMS, (*Ctx).c01Pending, func(c *Ctx) { c.beforeHandlersIssueNothing("C02.before-no-issue") }),
+	"C02": seq(C02, (*Ctx).c12Recovery, (*Ctx).c12SMS, (*Ctx).c01Pending, func(c *Ctx) {
+		c.beforeHandlersIssueNothing("C02.before-no-issue")
+		c.localizeFallback("C02.status-text")
+	}),
 	"C03": C03,
 	"C04": seq(C04, func(c *Ctx) { c.vetoOnlyAfterCheck("C04.veto-after-check") }),
 	"C05": C05,
@@ -29,7 +32,7 @@ var All = map[string]func(*Ctx){
 	"C10": C10,
 	"C11": C11,
 	"C12": seq(C12, (*Ctx).smsInvariant),
-	"C13": C13,
+	"C13": seq(C13, func(c *Ctx) { c.localizeFallback("C13.status-text") }),
 	"C14": C14,
 	"C15": C15,
 	"C16": C16,
